@@ -306,8 +306,8 @@ namespace foonathan
             }
 
         private:
-            unsigned short derived_size_      = 0,
-                           derived_alignment_ = 0; // use unsigned short here to save space
+            // note: not unsigned short to save space, a derived type can be bigger than 65535 bytes
+            std::size_t derived_size_ = 0, derived_alignment_ = 0;
         };
     } // namespace memory
 } // namespace foonathan
